@@ -1,4 +1,4 @@
-#!/usr/bin/env python3
+#!/venv/bin/python
 """Developer helper (not used by any check): add a status=known entry to known_findings.json from a replay file.
 
     python3 tools_add_known.py replays/C12-....json "description" [property ...]
